@@ -120,6 +120,8 @@ class Env(object):
             L.append(('ufunc.sin', odl.ufunc_ops.sin(sp), np.sin, sp, sp, False))
             L.append(('L2NormSquared', S.L2NormSquared(sp), lambda x: float(np.sum(np.abs(x) ** 2)), sp, self.fld, False))
             L.append(('L1Norm', S.L1Norm(sp), lambda x: float(np.sum(np.abs(x))), sp, self.fld, False))
+            # a *linear* Functional (the overloads of Functional take shortcuts for linear functionals)
+            L.append(('LinearFunctional', S.QuadraticForm(vector=w), lambda x, wa=wa: float(np.sum(x * wa)), sp, self.fld, True))
         return L
 
 
